@@ -68,6 +68,11 @@ CHECKS = {
    text="Theorems for all eight models, any number of elements/time steps/tubes/panels: assemble_roundtrip (stored tensor -> Mandel -> tensor is the identity), frame_indifferent (+ quadrature version, + eigvalsh_contract), reliability_range (log <= 0, reliability in (0,1]) at element/tube/receiver level, volume_linear, pia_wntsa_compressive, cutoff_scale, t0_power_law (both zero-time branches), mono_time, mono_scale, pia_uniaxial, batdorf_uniaxial (all six Batdorf models, polar axis, same-grid normalisation), aggregation (panel = product of tube^multiplier, overall = product of panels, ragged panels). Tied to srlife by replaying tube_log_reliability/determine_reliability on synthetic receivers in-process with recorders around calculate_element_log_reliability and numpy.linalg.eigvalsh and comparing element entries, tube series and aggregates with the model (1e-9), the orientation grids (1e-15), and by metamorphic runs on the real code (random rotations incl. repeated principal values, scale, service time, volume, zero-time power law, compressive states, uniaxial law, aggregation).",
    note="Trusted: Lean kernel + Mathlib; numpy.linalg.eigvalsh (its values are fed to the model; contract eig(QSQ^T)=eig(S)); libm pow/exp; material interpolation is an input to the model; Batdorf uniaxial law along non-polar axes and the WNTSA uniaxial law hold to quadrature accuracy only (measured within 5 %). pinned_mtsP_defect documents the repaired F28.",
    design="4/C05"),
+ "C04": dict(
+   technique="Lean 4 proof (induction over the panel list of the network builder; quick-find contraction and component splitting on tree-ordered multigraphs; linear assembly over any commutative ring) + exact and exhaustive topology correspondence with the real networkx code + direct-stiffness comparison of real solves",
+   text="Theorems for every receiver option, panel count, tubes per panel and option assignment: reduce_total, tubes_partition, rigid_shares_node (+ rigid_tubes_one_node), disconnect_alone, components_solvable, orientation, numeric_link_kept, fjDisp_orient, assembly_linear (F_int = K d, J = K, K = sum k_e (e_i-e_j)(e_i-e_j)^T, orientation independent, numeric link carries k*(d_i-d_j)), plus pinned_witness for the repaired F16. Tied to srlife by comparing, exactly, the built network, node representatives, reduced components, validate_solve verdict and dof maps of the real make_network/remove_rigid/split_disconnect with the model over ALL 3^(1+P) assignments for P <= 2 (thorough: P <= 3) and 1-3 tubes per panel with all numeric option types, 1000 random multigraphs, the real fj/RJ assembly on Float, and by solving every sub-problem with the real solve_all (stub tubes) and the full SpringSystemSolver with real 1-D FEM tubes against an independent direct-stiffness solution (force balance, shared displacement, alone-equivalence, k*delta).",
+   note="Trusted: Lean kernel + Mathlib; networkx iteration order is not modelled (canonical forms are compared); uniqueness of the residual zero when K_ff is nonsingular and Newton convergence (C17) are not proved; at least one tube in the receiver.",
+   design="4/C04"),
 }
 PENDING_REASON = "check not built yet in this round (work in progress; see DESIGN.md section 4 for the planned model and theorems) — not claimed"
 
